@@ -160,9 +160,58 @@ def runSim (cs : SimCase) : List String :=
       else []
     simLines cs c ++ [verdict] ++ alt
 
+/-- documented short forms (`absolute:<t>:get|show:<obj>`, `on…:get|show:<obj>`): "if the extra
+    parameter is omitted it defaults to unsigned", i.e. the short form denotes the same rule as the
+    string with `:unsigned` appended -/
+def longFormOf (str : String) : Option String :=
+  match splitStr str with
+  | [w0, _, _, _] => if w0 = "absolute" ∨ w0 = "relative" then some (str ++ ":unsigned") else none
+  | [w0, _, _] => if w0 = "onvalid" ∨ w0 = "onrecv" ∨ w0 = "onexit" then some (str ++ ":unsigned") else none
+  | _ => none
+
+def shortFormVerdict (str : String) (r : Rule) : String :=
+  match longFormOf str with
+  | none => "na"
+  | some l => if addStr l == some r then "ok" else "fail"
+
+/-- the stored rule prints with the time-constraint keyword and the action word of the string -/
+def keywordVerdict (str : String) (r : Rule) : String :=
+  let ws := splitStr str
+  let ps := ruleWords r
+  let w0 := ws.headD ""
+  let act := if w0 = "absolute" ∨ w0 = "relative" then ws.getD 2 "" else if w0 = "config" then "" else ws.getD 1 ""
+  let pact := if w0 = "absolute" ∨ w0 = "relative" then ps.getD 2 "" else if w0 = "config" then "" else ps.getD 1 ""
+  if ps.headD "" == w0 && act == pact then "ok" else "fail"
+
+/-- the rule list the strings of a `# Q` line denote, with the text each rule was added as -/
+structure QBox where
+  box : Box := []
+  src : List (String × Bool) := []
+
+def qEdit (q : QBox) (e : String) : QBox :=
+  match e.splitOn ":" with
+  | [op, arg] =>
+    if op = "add" then
+      let str := unhex arg
+      match add q.box str with
+      | some b => ⟨b, q.src ++ [(str, false)]⟩
+      | none => q
+    else
+      let i := nat! arg
+      if i < q.box.length then
+        if op = "del" then ⟨q.box.eraseIdx i, q.src.eraseIdx i⟩
+        else if op = "sus" then ⟨q.box.modify i (setSusp true), q.src.modify i (fun p => (p.1, true))⟩
+        else ⟨q.box.modify i (setSusp false), q.src.modify i (fun p => (p.1, false))⟩
+      else q
+  | _ => q
+
+def observers : Box :=
+  ["config:show_ticks", "config:show_io_pre", "config:show_io_post"].filterMap addStr
+
 structure St where
   box : Box := []
   sim : SimCase := {}
+  q : Option QBox := none
 
 def parseRuleDump (fs : List String) : Option Rule :=
   match fs with
@@ -178,7 +227,7 @@ def step (s : St) (line : String) : St × List String :=
     | none => (s, [line, "R err"])
     | some r =>
       let rt := if addStr (ruleString r) == some r then "ok" else "fail"
-      (s, [line, s!"R ok {ruleDump r} S={enhex (ruleString r)} RT={rt}"])
+      (s, [line, s!"R ok {ruleDump r} S={enhex (ruleString r)} RT={rt} SF={shortFormVerdict str r} KW={keywordVerdict str r}"])
   | "H" :: _ => ({ s with box := [] }, [line])
   | ["E", op, arg] =>
     let e : Edit := match op with
@@ -211,7 +260,20 @@ def step (s : St) (line : String) : St × List String :=
     let pre := (commaList ((kv rest "pre").getD "")).map parseCell
     let post := (commaList ((kv rest "post").getD "")).map parseCell
     ({ s with sim := { s.sim with implK := s.sim.implK ++ [(t, pre, post)] } }, [])
-  | ["G"] => ({ s with sim := {} }, runSim s.sim ++ ["G"])
+  | ["G"] =>
+    -- the prediction is made from the rule *strings* (when the case came with them); a stored
+    -- rule that differs from the rule its string denotes is reported (D line)
+    match s.q with
+    | some q =>
+      let denoted := q.box ++ observers
+      let dl := if denoted == s.sim.rules then [] else
+        match (List.range (max denoted.length s.sim.rules.length)).find? (fun i => denoted[i]? != s.sim.rules[i]?) with
+        | some i => [s!"D stored-rule-differs index={i} stored={(s.sim.rules[i]?.map ruleDump).getD "-"} denoted={(denoted[i]?.map ruleDump).getD "-"} string={enhex ((q.src[i]?.map (·.1)).getD "")}"]
+        | none => []
+      let nl := q.src.map fun (str, su) => s!"N {enhex str} {b01 su}"
+      ({ s with sim := {}, q := none }, runSim { s.sim with rules := denoted } ++ dl ++ nl ++ ["G"])
+    | none => ({ s with sim := {} }, runSim s.sim ++ ["G"])
+  | "#" :: "Q" :: _ :: _ :: _ :: _ :: edits => ({ s with q := some (edits.foldl qEdit {}) }, [line])
   | "#" :: _ => (s, [line])
   | _ => (s, [])
 
